@@ -153,7 +153,12 @@ def run(prog, rep, tier):
             okp = len(pubs) == 1 and pubs[0].term.args[0].place is not None and must_derive(sk, pubs[0].term.args[0].place[0], is_eph)
             rep.ob('R07.2', okp, 'R07.2|%s|public-from-ephemeral' % sk.nkey, 'public = PublicKey::from(&ephemeral)' if okp else 'stored public key is not computed from the ephemeral secret', sk.loc(pubs[0].idx) if pubs else sk.loc())
             dks = [b for b in sk.calls() if cnorm(b.term).endswith('derive_key')]
-            rep.floor('R07.2.dk', len(dks), 1, 'derive_key calls in store_key_for_multi_recipients')
+            # per-recipient work may sit in a closure (`recipients.iter().map(|key| ..)`) that captures the ephemeral secret
+            cdks = [(c, b) for c in prog.closures_of(sk) for b in c.calls() if cnorm(b.term).endswith('derive_key')]
+            rep.floor('R07.2.dk', len(dks) + len(cdks), 1, 'derive_key calls in store_key_for_multi_recipients')
+            for c, d in cdks:
+                okd = d.term.args[0].place is not None and must_derive_captured(prog, sk, c, d.term.args[0].place[0], is_eph)
+                rep.ob('R07.2', okd, 'R07.2|%s|derive_key-uses-ephemeral' % sk.nkey, 'derive_key(&ephemeral, recipient) in a closure capturing the ephemeral secret' if okd else 'derive_key not called with the ephemeral secret', c.loc(d.idx))
             for d in dks:
                 okd = d.term.args[0].place is not None and must_derive(sk, d.term.args[0].place[0], is_eph)
                 rep.ob('R07.2', okd, 'R07.2|%s|derive_key-uses-ephemeral' % sk.nkey, 'derive_key(&ephemeral, recipient)' if okd else 'derive_key not called with the ephemeral secret', sk.loc(d.idx))
